@@ -34,7 +34,7 @@ enum { K_A, K_AAAA, K_PTR, K_GAI, K_GAI4, K_A_VC, K_A_SEARCH, K_A_IGNTC, K_NKIND
 static const char *const kind_name[] = { "A", "AAAA", "PTR", "GAI", "GAI4", "A-VC", "A-SEARCH", "A-IGNTC" };
 #define IS_GAI(k) ((k) == K_GAI || (k) == K_GAI4)
 
-#define MAXREQ 3
+#define MAXREQ 14
 struct reqset { int n; int kind[MAXREQ]; int start_ms[MAXREQ]; };
 static const struct reqset reqsets[] = {
 	/* 0 */ { 1, { K_A }, { 0 } },
@@ -51,7 +51,10 @@ static const struct reqset reqsets[] = {
 	/* 11 */ { 2, { K_A_VC, K_GAI }, { 0, 0 } },
 	/* 12 */ { 3, { K_A_VC, K_A_VC, K_A_VC }, { 0, 6000, 7000 } },
 	/* 13 */ { 3, { K_A_VC, K_A, K_A_VC }, { 0, 0, 6000 } },
+	/* 14: more requests than max-inflight (forced to 6 => two req_heads buckets): eight of them wait */
+	/* 14 */ { 14, { K_A, K_A, K_AAAA, K_A, K_A, K_AAAA, K_A, K_A, K_AAAA, K_A, K_A, K_AAAA, K_A, K_A }, { 0 } },
 };
+#define RS_MANY 14
 #define N_REQSETS ((int)(sizeof reqsets / sizeof reqsets[0]))
 static const int inflight_opts[] = { 64, 1, 2 };
 
@@ -106,7 +109,10 @@ static void exp_ptr(int r, char *out, size_t n) { snprintf(out, n, "host-%d.test
 /* which user request does a query name belong to? -1: none (nameserver probe) */
 static int req_of_qname(const char *qn)
 {
-	if ((qn[0] == 'r' || qn[0] == 'R') && qn[1] >= '0' && qn[1] <= '9' && (qn[2] == '.' || qn[2] == 0)) return qn[1] - '0';
+	if ((qn[0] == 'r' || qn[0] == 'R') && qn[1] >= '0' && qn[1] <= '9') {
+		char *end; long k = strtol(qn + 1, &end, 10);
+		if ((*end == '.' || *end == 0) && k < MAXREQ) return (int)k;
+	}
 	int v = atoi(qn);
 	if (v >= 100 && v < 100 + MAXREQ && strcasestr(qn, ".in-addr.arpa")) return v - 100;
 	return -1;
@@ -304,7 +310,7 @@ static void user_action(struct ureq *in_cb)
 	int opts[MAXREQ], n = 0;
 	if (!base_alive || acts_left <= 0) return;
 	for (int i = 0; i < nreqs; i++)
-		if (reqs[i].started && !reqs[i].done && !reqs[i].cancelled && reqs[i].handle && &reqs[i] != in_cb) opts[n++] = i;
+		if (reqs[i].started && !reqs[i].done && !reqs[i].cancelled && reqs[i].handle && &reqs[i] != in_cb && n < (nreqs > 3 ? 1 : 3)) opts[n++] = i;   /* many-requests set: only the oldest outstanding one */
 	int c = mc_choose(1 + n + 2, 0, in_cb ? "user-action-in-callback" : "user-action");
 	if (!c) return;
 	acts_left--;
@@ -590,8 +596,9 @@ static void body(void)
 	if (rsmax > N_REQSETS) rsmax = N_REQSETS;
 	int only = mc_param("only_reqset", -1);
 	int rs = only >= 0 ? only : mc_choose(rsmax, 0, "reqset");
-	nns = 1 + mc_choose(2, 0, "nameservers");
-	int mi = inflight_opts[mc_choose(3, 0, "max-inflight")];
+	/* the many-requests set has one fixed configuration: max-inflight 6 gives n_req_heads == 2 */
+	nns = rs == RS_MANY ? 1 : 1 + mc_choose(2, 0, "nameservers");
+	int mi = rs == RS_MANY ? 6 : inflight_opts[mc_choose(3, 0, "max-inflight")];
 	int attempts = att_lo + mc_choose(att_hi - att_lo + 1, 0, "attempts");
 	static const int rng_order[] = { 1, 2, 0 };
 	int rngmode = rng_order[rngmodes > 1 ? mc_choose(rngmodes > 3 ? 3 : rngmodes, 0, "rng-mode") : 0];
